@@ -430,6 +430,9 @@ class Program:
     def find_impl_fn(self, ty, meth, trait=None, crate=None, file_part=None):
         c = [f for f in self.fns if f.impl and f.impl[1] == ty and f.impl[3] == meth and f.impl[0] == trait and (crate is None or f.crate == crate)
              and (file_part is None or file_part in f.name)]
+        if len(c) > 1 and len(set(f.name for f in c)) == 1 and len(set(f.crate for f in c)) == 1 and len(set(f.ret for f in c)) == 1:
+            # a `const fn` is printed twice (const-evaluation and runtime MIR); take the runtime one (printed last)
+            return c[-1]
         if len(c) != 1:
             raise KeyError('find_impl_fn(%s,%s,%s): %d candidates: %s' % (ty, meth, trait, len(c), [f.name for f in c][:8]))
         return c[0]
